@@ -690,7 +690,54 @@ func (r *real) note(err error) {
 	}
 }
 
+// heldIter keeps every slice Key() and Value() handed out, together with a copy taken at
+// that moment. Only UncopiedValue is documented as invalidated by the next positioning call;
+// keys and values a caller keeps (as db/typed/prefix and others do) must stay what they were.
+type heldIter struct {
+	db.Iterator
+	held []heldSlice
+}
+
+type heldSlice struct {
+	what      string
+	got, copy []byte
+}
+
+func (h *heldIter) Key() []byte {
+	k := h.Iterator.Key()
+	if k != nil {
+		h.held = append(h.held, heldSlice{"Key", k, append([]byte{}, k...)})
+	}
+	return k
+}
+
+func (h *heldIter) Value() ([]byte, error) {
+	v, err := h.Iterator.Value()
+	if err == nil && v != nil {
+		h.held = append(h.held, heldSlice{"Value", v, append([]byte{}, v...)})
+	}
+	return v, err
+}
+
+// stale reports the first retained slice whose bytes have changed since it was returned.
+func (h *heldIter) stale() string {
+	for _, s := range h.held {
+		if string(s.got) != string(s.copy) {
+			return fmt.Sprintf("slice-returned-by-%s-changed-after-later-positioning(%x->%x)", s.what, s.copy, s.got)
+		}
+	}
+	if len(h.held) > 64 {
+		h.held = h.held[len(h.held)-64:]
+	}
+	return ""
+}
+
 func iterRes(it db.Iterator, ret bool) string {
+	if h, ok := it.(*heldIter); ok {
+		if s := h.stale(); s != "" {
+			return s
+		}
+	}
 	valid := it.Valid()
 	if ret != valid {
 		return fmt.Sprintf("inconsistent: call returned %v but Valid()=%v", ret, valid)
@@ -750,11 +797,12 @@ func realHas(r *real, rd db.KeyValueReader, k string) string {
 
 func realScan(r *real, rd db.KeyValueReader, prefix string, ub, reverse bool) string {
 	note := r.note
-	it, err := rd.NewIterator(r.bs(prefix), ub)
+	it0, err := rd.NewIterator(r.bs(prefix), ub)
 	if err != nil {
 		note(err)
 		return "err"
 	}
+	it := &heldIter{Iterator: it0}
 	var sb strings.Builder
 	sb.WriteString("[")
 	emit := func() {
@@ -788,6 +836,9 @@ func realScan(r *real, rd db.KeyValueReader, prefix string, ub, reverse bool) st
 		}
 	}
 	sb.WriteString("]")
+	if st := it.stale(); st != "" {
+		sb.WriteString(" " + st)
+	}
 	if err := it.Close(); err != nil {
 		note(err)
 		return sb.String() + " close-error"
@@ -893,7 +944,7 @@ func (r *real) do(o *op) (res string) {
 				r.iters = append(r.iters, nil)
 				return ec(err)
 			}
-			r.iters = append(r.iters, it)
+			r.iters = append(r.iters, &heldIter{Iterator: it})
 			return "ok"
 		case "snap":
 			r.snaps = append(r.snaps, st.NewSnapshot())
@@ -960,7 +1011,7 @@ func (r *real) do(o *op) (res string) {
 				r.iters = append(r.iters, nil)
 				return ec(err)
 			}
-			r.iters = append(r.iters, it)
+			r.iters = append(r.iters, &heldIter{Iterator: it})
 			return "ok"
 		}
 		return r.batchOp(b, o)
@@ -979,7 +1030,7 @@ func (r *real) do(o *op) (res string) {
 				r.iters = append(r.iters, nil)
 				return ec(err)
 			}
-			r.iters = append(r.iters, it)
+			r.iters = append(r.iters, &heldIter{Iterator: it})
 			return "ok"
 		case "close":
 			r.snaps[o.ID] = nil
